@@ -16,7 +16,7 @@ RULE = (
     "Hypothesis: exceptions raised from generated source files written to a per-run directory (0-15 filler lines "
     "before and after the raising function and inside it, drawn from assignments, comments, blank lines, non-ASCII "
     "identifiers and strings, tab-indented blocks, multi-line strings and brackets, backslash continuations, "
-    "markup-like string literals; raise at the first / middle / last line; with and without trailing newline; CRLF), "
+    "markup-like string literals, multi-line strings with exotic separators (form feed, U+2028, NEL) and multi-line f-strings; raise at the first / middle / last line; with and without trailing newline; CRLF), "
     "from exec'd / source-less code, with the C04 message set and generated messages, cause chains, recursion depth "
     "1..60 x verbosity x UTF-8 on/off x ignore pattern matching or not x simple on/off; the highlighter alone over "
     "every Python file under /repo/src and a fixed list of stdlib modules at every 7th line. Non-trivial: a source "
@@ -51,9 +51,11 @@ FILLER = [
     "def helper(a, b=2):\n    return a",
     "class K(object):\n    attr = None",
     "r = r'raw\\d+'",
+    "doc = \"\"\"para\x0cgraph, next\u2028line\nsecond\x0bpart\x85end\n\"\"\"",
+    "rep = f\"\"\"Report\nvalue:\n{1 + 1} units\n{2} more\"\"\"",
 ]
 MARKUPISH = {11, 12, 13, 14}
-MULTILINE_TOKEN = {8}
+MULTILINE_TOKEN = {8, 19, 20}
 SNIPPET_RE = re.compile(r"^\s*(?P<mark>→|>)?\s*(?P<no>\d+)(?:│|\|) ?(?P<code>.*)$")
 
 
@@ -330,7 +332,7 @@ def shard_highlighter(ctx, arg):
 
 def trace_case():
     filler = st.lists(st.integers(0, len(FILLER) - 1), max_size=15)
-    inner = st.lists(st.integers(0, len(FILLER) - 3), max_size=6)
+    inner = st.lists(st.sampled_from([i for i in range(len(FILLER)) if i not in (16, 17)]), max_size=6)
     file_case = st.fixed_dictionaries({
         "origin": st.just("file"),
         "before": filler, "inside": inner, "inside_after": inner, "after": filler,
